@@ -43,7 +43,14 @@ func main() {
 	dir := flag.String("dir", "", "scratch copy of the repository")
 	seam := flag.String("seam", "", "directory with the verifseam runtime sources")
 	sched := flag.Bool("sched", true, "insert scheduler hooks as well")
+	extract := flag.String("extract", "", "only extract the playground executor from this file into <dir>/verifplay")
 	flag.Parse()
+	if *extract != "" {
+		if err := extractPlayground(*extract, filepath.Join(*dir, "verifplay")); err != nil {
+			fatal(err)
+		}
+		return
+	}
 	if *dir == "" || *seam == "" {
 		fmt.Fprintln(os.Stderr, "usage: inst -dir <scratch repo> -seam <seam src dir>")
 		os.Exit(2)
